@@ -55,7 +55,11 @@ GEN = {
  'C11': 'C11Gen.Statement (full): DacsByte::from_slice, access, len, num_levels, widths, iteration, as generated from dacs_byte.rs.',
  'C12': 'C12Gen.Statement (full): PrefixSummedEliasFano::from_slice (Err for the empty slice), access, len, sum, iteration, as generated from prefix_summed_elias_fano.rs.',
  'C16': 'C16Gen.Statement (full): EliasFanoBuilder::new/push/extend histories and the build() read-back, as generated from elias_fano.rs.',
- 'C17': 'C17Gen.Statement_partial: BitVector::iter, CompactVector::iter, unary_iter next/skip1/skip0 sequences as generated; the other containers\' iterators await their equivalences.',
+ 'C05': 'C05Gen.Statement (full, three backings): WaveletMatrix::new from a CompactVector, access, rank, rank_range, select, len, alph_size as generated from wavelet_matrix.rs (one translation per backing B).',
+ 'C06': 'C06Gen.Statement (full, three backings): quantile and intersect as generated from wavelet_matrix.rs (intersect_helper is recursive: translated with explicit fuel, termination proved).',
+ 'C15': 'C15Gen.Statement: for every pair of configurations the generated constructors return the same value (hence the same bytes) and every generated query returns the same answer, collected from the config_independent theorems of all CxxGen files.',
+ 'C17': 'C17Gen.Statement (full, nine clauses): every index iterator (BitVector, CompactVector, DacsByte, DacsOpt, PrefixSummedEliasFano, WaveletMatrix x 3), EliasFano::iter(k), unary next and skip sequences, as generated.',
+ 'C19': 'C19Gen.Statement (full, ten structures): every documented space bound for the value returned by the generated constructor, measured by the generated size_in_bytes expression.',
  'C18': 'C18Gen.Statement (full, every L >= 1): compute_opt_widths as generated from dacs_opt.rs returns, with no assertion firing / overflow / out-of-bounds / non-termination, a cost-optimal valid split.',
 }
 for _k in list(PARTIAL):
